@@ -3,6 +3,8 @@ package c06
 import (
 	"encoding/json"
 	"fmt"
+	"os"
+	"path/filepath"
 	"sort"
 	"strings"
 	"testing"
@@ -45,6 +47,7 @@ type world struct {
 	cats   map[string][]string // "cmd" / "cmd|sub" -> categories
 	rules  acl.Rules
 	authed bool
+	aclDir string
 }
 
 var catCache map[string][]string
@@ -52,7 +55,8 @@ var catCache map[string][]string
 func newWorld(t interface{ Fatalf(string, ...any) }) *world {
 	w := &world{port: sut.FreePort()}
 	var err error
-	w.a, err = sut.New(sut.Opts{Port: w.port, RequirePass: true, Password: "adminpw"})
+	w.aclDir = sut.NewScratchDir("c06acl")
+	w.a, err = sut.New(sut.Opts{Port: w.port, RequirePass: true, Password: "adminpw", AclConfig: filepath.Join(w.aclDir, "acl.json")})
 	if err != nil {
 		t.Fatalf("HARNESS-ERROR: %v", err)
 	}
@@ -98,6 +102,9 @@ func (w *world) close() {
 	w.a.RemoveDir()
 	w.b.Close()
 	w.b.RemoveDir()
+	if w.aclDir != "" {
+		_ = os.RemoveAll(w.aclDir)
+	}
 }
 
 func (w *world) categories(comm string) []string {
@@ -319,12 +326,56 @@ func runCase(t *rapid.T, replayRules []string, replaySteps []step) {
 				if rapid.IntRange(0, 9).Draw(t, "del") == 0 {
 					st = step{Kind: "admin", Cmd: []string{"ACL", "DELUSER", "u"}}
 				}
+			case 2:
+				if rapid.IntRange(0, 1).Draw(t, "badauth") == 0 {
+					// a failed authentication attempt on the user's connection: it must change nothing, in particular
+					// not whose rules the following commands are judged by
+					st = step{Kind: "badauth", Cmd: rapid.SampledFrom([][]string{{"AUTH", "default", "wrong"}, {"AUTH", "wrong"}, {"AUTH", "u", "wrong"}, {"HELLO", "2", "AUTH", "default", "wrong"}, {"AUTH", "nobody", "x"}}).Draw(t, "badcmd")}
+				} else {
+					// the rules are saved to the ACL file, edited in memory, and loaded back (REPLACE): the saved rules
+					// govern again, also for the connection that was authenticated before
+					edit := genRules(t, "ledit", false)
+					if len(edit) == 0 {
+						edit = []string{"allCategories", "allCommands", "allKeys"}
+					}
+					st = step{Kind: "admin-load", Cmd: append([]string{"ACL", "SETUSER", "u"}, edit...)}
+				}
 			default:
 				st = step{Kind: "user", Cmd: sanitize(genUserCmd(t, hint))}
 			}
 		}
 		trace = append(trace, st)
 		rec.Class("step:" + st.Kind)
+		if st.Kind == "badauth" {
+			if userGone {
+				continue // the deleted user's connection has been closed by the server
+			}
+			whoBefore := w.user.Do("ACL", "WHOAMI").Val.Canon()
+			r := w.user.Do(st.Cmd...)
+			if !r.Val.IsErr() {
+				fail("%q with a wrong password was answered with %s", st.Cmd, r.String())
+			}
+			if who := w.user.Do("ACL", "WHOAMI").Val.Canon(); who != whoBefore {
+				fail("the failed %q changed the connection's identity from %s to %s", st.Cmd, whoBefore, who)
+			}
+			continue
+		}
+		if st.Kind == "admin-load" {
+			if userGone {
+				continue
+			}
+			if r := w.admin.Do("ACL", "SAVE"); r.Val.IsErr() {
+				continue
+			}
+			w.admin.Do(st.Cmd...)
+			if r := w.admin.Do("ACL", "LOAD", "REPLACE"); r.Val.IsErr() {
+				w.refreshRules()
+				continue
+			}
+			w.refreshRules()
+			rec.Class("rules restored from the ACL file under an authenticated connection")
+			continue
+		}
 		if st.Kind == "admin" {
 			w.admin.Do(st.Cmd...)
 			w.refreshRules()
